@@ -37,5 +37,6 @@ func main() {
 	c := vk.New(id, *tier)
 	c.ReplayPath = *replay
 	f(c)
+	checks.ReportHookTraces(c)
 	os.Exit(c.Finish())
 }
